@@ -120,6 +120,16 @@ CHECKS = {
         "what CRC8/CRC9/CRC16/CRC32 front ends and their check functions returned; the repository's on-air vectors guard the reading.",
         "Long strings are sampled per length; polynomials as in ETSI B.3; CRC-32 front-end rule is the effective one (word swap, MSB first).",
     ),
+    "C04": (
+        "DESIGN.md 5/C04",
+        "exhaustive parse of all 2^20 slot-type and 2^16 EMB words with membership recomputed by TLC (Integrity.tla on BlockCodes.tla) + corruption campaign on generated check-field PDUs judged by TLC against the detection capability proved in CRC.tla",
+        "All 2^20 slot-type words and all 2^16 EMB words are parsed by the implementation; TLC enumerates them and compares the indicator "
+        "with membership in the code spanned by the learned Golay/QR rows. 17 classes of check-field PDUs (slot type, EMB, five data "
+        "header formats, PI header, short LC, six confirmed rate-block variants, HRNP) are generated, serialised, parsed (indicator must be "
+        "true) and corrupted with every single-bit error, double errors, bursts (in code-word order) no longer than the check field, "
+        "weight-3 patterns and patterns that clear the check field; TLC judges each outcome.",
+        "Corruption patterns beyond single/double bit errors are sampled; field equality excludes the check fields themselves; five open findings (all-zero check field convention).",
+    ),
 }
 
 NOT_YET = {}
